@@ -47,11 +47,27 @@ Fixpoint nrule_of (te : tenv) (ty : string) : nrule :=
   | (t, r) :: rest => if String.eqb ty t then r else nrule_of rest ty
   end.
 
+(* an error value is a cause TREE: Unwrap() error (EWrap) or Unwrap() []error (EJoin) *)
 Inductive goerr :=
 | EPlain (msg : string)                     (* errors.New, fmt.Errorf without a goa error inside *)
 | EService (c : core)                       (* *goa.ServiceError *)
 | ECustom (ty : string) (fs : fields)       (* value of a generated error type, attributes that are set *)
-| EWrap (w : string) (e : goerr).           (* fmt.Errorf(w + ": %w", e) *)
+| EWrap (w : string) (e : goerr)            (* fmt.Errorf(w + ": %w", e) *)
+| EJoin (sep : string) (es : list goerr).   (* errors.Join(es...) (sep = newline) / fmt.Errorf("%w: %w", es...) (sep = ": ") *)
+
+(* errors.As walks the tree depth first, in order, and stops at the first match *)
+Definition first_some {A B} (f : A -> option B) : list A -> option B :=
+  fix go l := match l with
+              | [] => None
+              | x :: r => match f x with Some y => Some y | None => go r end
+              end.
+
+Fixpoint join_text (sep : string) (l : list string) : string :=
+  match l with
+  | [] => ""
+  | [x] => x
+  | x :: r => x ++ sep ++ join_text sep r
+  end.
 
 Definition opt_default (o : option string) : string := match o with Some v => v | None => "" end.
 
@@ -68,6 +84,7 @@ Fixpoint as_namer (te : tenv) (e : goerr) : option string :=
   | EService c => Some (cname c)
   | ECustom ty fs => Some (custom_name te ty fs)
   | EWrap _ e' => as_namer te e'
+  | EJoin _ es => first_some (as_namer te) es
   end.
 
 (* errors.As(v, &*goa.ServiceError) *)
@@ -75,6 +92,7 @@ Fixpoint as_service (e : goerr) : option core :=
   match e with
   | EService c => Some c
   | EWrap _ e' => as_service e'
+  | EJoin _ es => first_some as_service es
   | _ => None
   end.
 
@@ -83,6 +101,7 @@ Fixpoint as_custom (ty : string) (e : goerr) : option fields :=
   match e with
   | ECustom ty' fs => if String.eqb ty ty' then Some fs else None
   | EWrap _ e' => as_custom ty e'
+  | EJoin _ es => first_some (as_custom ty) es
   | _ => None
   end.
 
@@ -94,7 +113,26 @@ Fixpoint err_text (e : goerr) : string :=
   | EService c => cmsg c
   | ECustom _ _ => "<error-text>"
   | EWrap w e' => w ++ ": " ++ err_text e'
+  | EJoin sep es => join_text sep (map err_text es)
   end.
+
+(* a tree without any goa error in it *)
+Fixpoint inert (e : goerr) : bool :=
+  match e with
+  | EPlain _ => true
+  | EService _ | ECustom _ _ => false
+  | EWrap _ e' => inert e'
+  | EJoin _ es => forallb inert es
+  end.
+
+(* t wraps g: g sits in t below any number of single and multiple wrappers whose other
+   branches are inert *)
+Inductive wraps (g : goerr) : goerr -> Prop :=
+| W_here : wraps g g
+| W_wrap w t : wraps g t -> wraps g (EWrap w t)
+| W_join sep pre t post :
+    forallb inert pre = true -> forallb inert post = true -> wraps g t ->
+    wraps g (EJoin sep (pre ++ t :: post)).
 
 (* ---- the endpoint's error table after inheritance (method, service, API) ---- *)
 
@@ -114,6 +152,47 @@ Record edecl := mkdecl { ename : string; estatus : nat; ekind_of : ekind;
 
 Definition find_decl (n : string) (tbl : list edecl) : option edecl :=
   find (fun d => String.eqb (ename d) n) tbl.
+
+(* ---- how the table comes about (expr/http_endpoint.go Prepare, http_service.go Prepare,
+        http_error.go Finalize, method.go Finalize): the same error name may be declared
+        (Error) and mapped (HTTP Response) at method, service and API level ---- *)
+
+Fixpoint alookup {A} (k : string) (l : list (string * A)) : option A :=
+  match l with
+  | [] => None
+  | (k', v) :: r => if String.eqb k k' then Some v else alookup k r
+  end.
+
+Record levels := mklevels { m_decl : list (string * ekind); m_map : list (string * nat);
+                            s_decl : list (string * ekind); s_map : list (string * nat);
+                            a_decl : list (string * ekind); a_map : list (string * nat) }.
+
+(* the errors a method can return: its own, then the service's *)
+Definition eff_names (lv : levels) : list string :=
+  (map fst (m_decl lv) ++ filter (fun n => negb (mem n (map fst (m_decl lv)))) (map fst (s_decl lv)))%list.
+
+(* the type of the value the method returns *)
+Definition method_kind (lv : levels) (n : string) : option ekind :=
+  match alookup n (m_decl lv) with Some k => Some k | None => alookup n (s_decl lv) end.
+
+(* the response: the method's mapping, else the service's, else the API's; the row
+   carries the error type DECLARED AT THE LEVEL OF THE MAPPING *)
+Definition pick (lv : levels) (n : string) : option (nat * option ekind) :=
+  match alookup n (m_map lv) with
+  | Some st => Some (st, method_kind lv n)
+  | None =>
+    match alookup n (s_map lv) with
+    | Some st => Some (st, alookup n (s_decl lv))
+    | None =>
+      match alookup n (a_map lv) with
+      | Some st => Some (st, alookup n (a_decl lv))
+      | None => None
+      end
+    end
+  end.
+
+Definition effective_error_table (lv : levels) : list (string * nat * ekind) :=
+  flat_map (fun n => match pick lv n with Some (st, Some k) => [(n, st, k)] | _ => [] end) (eff_names lv).
 
 (* ---- the wire ---- *)
 
